@@ -101,33 +101,67 @@ def check_theorems(prop):
 
 
 # ----------------------------------------------------------------------------- implementation side
-def run_impl(cases, timeout=300):
-    """cases: [{'family':..., 'case':...}] -> observations (otrees as nested lists) ; hangs are bisected"""
+def run_impl(cases, timeout=300, per_case=45):
+    """cases: [{'family':..., 'case':...}] -> observations.  The runner reports its progress; a case that makes no
+    progress for per_case seconds is a hang: it is recorded as such and the run continues after it."""
     d = tempfile.mkdtemp(prefix="tpimpl_", dir=SCRATCH)
     try:
-        return _run_impl(cases, timeout, d, 0)
+        out = []
+        start = 0
+        while start < len(cases):
+            got, hung = _run_impl(cases[start:], d, per_case)
+            out.extend(got)
+            start += len(got)
+            if hung is not None and start < len(cases):
+                out.append({"error": hung})
+                start += 1
+        return out[:len(cases)]
     finally:
         shutil.rmtree(d, ignore_errors=True)
 
 
-def _run_impl(cases, timeout, d, depth):
-    src = os.path.join(d, "cases_%d_%d.json" % (depth, random.randrange(10 ** 9)))
+def _run_impl(cases, d, per_case):
+    src = os.path.join(d, "cases_%d.json" % random.randrange(10 ** 9))
     dst = src + ".out"
     json.dump(cases, open(src, "w"))
     env = dict(os.environ)
     env["PYTHONPATH"] = REPO_SRC
     env["PYTHONHASHSEED"] = "0"
     env["PYTHONDONTWRITEBYTECODE"] = "1"
-    rc, out, err = sh([PY, os.path.join(HERE, "impl_runner.py"), src, dst], timeout, env=env)
-    if rc == 0 and os.path.exists(dst):
-        return [fix(o) for o in json.load(open(dst))]
-    if len(cases) == 1:
-        why = "hang (no answer within %ss)" % timeout if rc == 124 else "crash: " + (err or out)[-600:]
-        return [{"error": why}]
-    # find the culprit: everything before the case in progress is re-run in halves
-    mid = len(cases) // 2
-    t2 = max(20, timeout // 2)
-    return _run_impl(cases[:mid], t2, d, depth + 1) + _run_impl(cases[mid:], t2, d, depth + 1)
+    proc = subprocess.Popen([PY, os.path.join(HERE, "impl_runner.py"), src, dst], env=env,
+                            stdout=subprocess.PIPE, stderr=subprocess.PIPE, text=True)
+    last, last_t = None, time.time()
+    hung = None
+    while True:
+        try:
+            proc.wait(timeout=1.0)
+            break
+        except subprocess.TimeoutExpired:
+            pass
+        try:
+            cur = open(dst + ".progress").read()
+        except OSError:
+            cur = None
+        if cur != last:
+            last, last_t = cur, time.time()
+        elif time.time() - last_t > per_case:
+            proc.kill()
+            proc.wait()
+            hung = "hang (no answer within %ss)" % per_case
+            break
+    got = []
+    if os.path.exists(dst):
+        for line in open(dst):
+            line = line.strip()
+            if line:
+                try:
+                    got.append(fix(json.loads(line)))
+                except ValueError:
+                    break
+    if hung is None and proc.returncode != 0 and len(got) < len(cases):
+        err = proc.stderr.read()[-600:] if proc.stderr else ""
+        hung = "crash: " + err
+    return got, hung
 
 
 def fix(o):
